@@ -67,6 +67,16 @@ def lib():
     return _LIB
 
 
+def raise_kind(e):
+    """classifies an exception of a configuration call so that distinct causes get distinct signatures"""
+    msg = str(e)
+    if "broadcast" in msg:
+        return "raises-shape"
+    if "symmetric" in msg:
+        return "raises-symmetry-check"
+    return "raises-" + type(e).__name__
+
+
 def mclass(m):
     return "m=2" if m == 2 else "m>=3"
 
@@ -478,7 +488,7 @@ def run_dataset(out, su, kind, did, data, tier, direct):
             nconf += 1
             if not ok:
                 out.count("raises:%s:%s:%s" % (cls, modeclass(mode), mclass(su.m)))
-                out.fail("%s.configure:raises:mode=%s:hist=fresh:%s:%s" % (cls, modeclass(mode), mclass(su.m), su.typ),
+                out.fail("%s.configure:%s:mode=%s:hist=fresh:%s:%s" % (cls, raise_kind(e), modeclass(mode), mclass(su.m), su.typ),
                          "%s flag=%s | set_from_standard_qtomography_option_data: %s" % (ctx, su.flag, A.fmt_exc(e)))
                 continue
             out.count("configured:%s:%s" % (cls, modeclass(mode)))
@@ -611,7 +621,7 @@ def ex_e2(p, seed):
         out.count("e2_len%d" % len(seq))
         if not ok2:
             out.count("raises:%s:%s:%s" % (cls, modeclass(mode), mclass(su.m)))
-            out.fail("%s.%s:raises:mode=%s:hist=%s:%s:%s" % (cls, route, modeclass(mode), hist, mclass(su.m), su.typ),
+            out.fail("%s.%s:%s:mode=%s:hist=%s:%s:%s" % (cls, route, raise_kind(e), modeclass(mode), hist, mclass(su.m), su.typ),
                      "%s flag=%s | %s" % (ctx, su.flag, A.fmt_exc(e)))
             continue
         expect = expect_of(cls, mode, w)
